@@ -49,7 +49,7 @@ def check(acc, job):
         # a very long score (hundreds of measures): cut sets over the boundary positions only, each with one of the two separators
         bp = barpos
         pick = lambda *ix: tuple(bp[i] for i in ix if -len(bp) <= i < len(bp))
-        cutsets = [((), '\n'), (pick(0), ''), (pick(-1), '\n'), (pick(255, 256), ''), (pick(63, 127, 255, -2), '\n'), (pick(99, 100), '\n'), (pick(0, 1, 256, -1), '')]
+        cutsets = [((), '\n'), (pick(0), ''), (pick(-1), '\n'), (pick(255, 256), ''), (pick(63, 127, 255, -2), '\n'), (pick(0, 1, 256, -1), '')]
     else:
         cutsets = [(cuts, sep) for k in range(0, min(len(barpos), 5) + 1) for cuts in itertools.combinations(barpos, k) for sep in ('\n', '')]
     if True:
@@ -144,7 +144,7 @@ def run(ctx):
     ctx.bounds = {'sequence_length': '4/3 (quick) 5/4 (thorough)', 'deviations_k': 1 if quick else 2, 'max_cuts': 5}
     ctx.assumptions = ['fragment data lines are compared in kernpy\'s normal form (taken from its own full export of the joined score, C03)',
                        'cases are labelled first-fragment-has-a-measure / first-fragment-header-only']
-    ctx.pmap(_job, [[j] for j in D.long_kern_docs(seed, reps=(2,)) + [(['**kern', '**kern'], ['GIANT', '1100'], seed)]] + list(X.chunks(jobs, 40)), chunksize=1)
+    ctx.pmap(_job, [[j] for j in D.long_kern_docs(seed, reps=(2,)) + [(['**kern', '**kern'], ['GIANT', '1500'], seed)]] + list(X.chunks(jobs, 40)), chunksize=1)
 
 
 def replay(case):
